@@ -6,7 +6,9 @@
 (* RNG or a call with the class of the input and what was observed         *)
 (* (outcome, cause of the ValueError, length / dtype / finiteness of the   *)
 (* result, whether the input tensor changed, whether the result equals     *)
-(* that of a fresh instance called right after the same seed).             *)
+(* that of a fresh instance called right after the same seed - same        *)
+(* exception class, or same dtype and bits).  The inputs of an episode     *)
+(* may mix dtypes on one instance, also for kinds with a parameter vector. *)
 (* Every call is judged by the contract table and the memo rule of         *)
 (* AggContract, with the RNG stream tracked by the model (Draws).          *)
 (* A rejected episode prints REJECT with the failing clause; validation    *)
@@ -18,8 +20,8 @@ EXTENDS AggContract, IOUtils, TLCExt
 Episodes == JsonDeserialize(IOEnv.TRACE_FILE)
 NEp      == Len(Episodes)
 
-VARIABLES ep, pos, trng, nAcc, nRej, nDrift, nMemo, stage
-tvars == <<kind, mode, rng, steps, ncalls, inputsIntact, ep, pos, trng, nAcc, nRej, nDrift, nMemo, stage>>
+VARIABLES ep, pos, trng, nAcc, nRej, nDrift, nMemo, nMixed, stage
+tvars == <<kind, mode, rng, steps, ncalls, inputsIntact, ep, pos, trng, nAcc, nRej, nDrift, nMemo, nMixed, stage>>
 
 E     == Episodes[ep]
 TKind == E.kind
@@ -27,7 +29,7 @@ TKind == E.kind
 TInit == /\ kind = (CHOOSE k \in Kinds : k.name = "Mean") /\ mode = "hist"
          /\ rng = [seed |-> "s0", stream |-> <<>>, calls |-> 0] /\ steps = <<>> /\ ncalls = 0 /\ inputsIntact = TRUE
          /\ ep = 1 /\ pos = 1 /\ trng = [seed |-> "s0", stream |-> <<>>, calls |-> 0]
-         /\ nAcc = 0 /\ nRej = 0 /\ nDrift = 0 /\ nMemo = 0 /\ stage = "run"
+         /\ nAcc = 0 /\ nRej = 0 /\ nDrift = 0 /\ nMemo = 0 /\ nMixed = 0 /\ stage = "run"
 
 Frozen == UNCHANGED <<kind, mode, rng, steps, ncalls, inputsIntact>>
 
@@ -36,7 +38,10 @@ Failing(k, r, c, o) ==
     LET want == Contract(k, c) IN
     IF o.mutated THEN "input_modified"
     ELSE IF want = "ValueError" THEN (IF o.outcome = "ValueError" THEN "none" ELSE "not_rejected_with_ValueError")
-    ELSE IF want = "unspecified" THEN "none"
+    \* outcome not demanded (ConFIG on what it does not validate; a matrix whose dtype differs from the
+    \* parameter vector's): whatever the call does, a fresh instance does the same
+    ELSE IF want = "unspecified" THEN (IF MemoLevel(k, r) = "property" /\ o.eqfresh = "no"
+                                       THEN "depends_on_history_or_not_reproducible" ELSE "none")
     ELSE IF o.outcome # "vector" THEN "finite_admissible_matrix_not_mapped_to_a_vector"
     ELSE IF o.n # ExpectN(c) THEN "one_entry_per_column"
     ELSE IF o.dtype # ExpectDtype(c) THEN "dtype_of_the_input"
@@ -50,7 +55,7 @@ TStep ==
        IF st.op = "seed"
        THEN /\ trng' = [seed |-> st.s, stream |-> <<>>, calls |-> 0]
             /\ pos' = pos + 1
-            /\ UNCHANGED <<ep, nAcc, nRej, nDrift, nMemo>>
+            /\ UNCHANGED <<ep, nAcc, nRej, nDrift, nMemo, nMixed>>
        ELSE LET f == Failing(TKind, trng, st.c, st.obs)
                 causeSeen == IF st.obs.outcome = "ValueError" THEN "VE_" \o st.obs.cause
                              ELSE st.obs.outcome
@@ -64,7 +69,7 @@ TStep ==
                                                    want |-> Contract(TKind, st.c)])>>)
                      /\ ep' = ep + 1 /\ pos' = 1 /\ nRej' = nRej + 1
                      /\ trng' = [seed |-> "s0", stream |-> <<>>, calls |-> 0]
-                     /\ UNCHANGED <<nAcc, nDrift, nMemo>>
+                     /\ UNCHANGED <<nAcc, nDrift, nMemo, nMixed>>
                 ELSE /\ (drift => PrintT(<<"DRIFT", ToJson([ep |-> E.ep, at |-> pos, impl |-> implSays,
                                                              seen |-> causeSeen])>>))
                      /\ trng' = RngAfterCall(TKind, trng, st.c)
@@ -72,6 +77,11 @@ TStep ==
                      /\ nDrift' = nDrift + (IF drift THEN 1 ELSE 0)
                      /\ nMemo' = nMemo + (IF MemoLevel(TKind, trng) = "property" /\ st.obs.eqfresh = "yes"
                                           THEN 1 ELSE 0)
+                     /\ nMixed' = nMixed + (IF MemoLevel(TKind, trng) = "property" /\ st.obs.eqfresh = "yes"
+                                              /\ HasParam(TKind) /\ st.c.dtype = TKind.pdt
+                                              /\ \E q \in 1..(pos - 1) : E.steps[q].op = "call"
+                                                    /\ CrossAdmissible(TKind, E.steps[q].c)
+                                            THEN 1 ELSE 0)
                      /\ UNCHANGED <<ep, nAcc, nRej>>
     /\ UNCHANGED stage
     /\ Frozen
@@ -80,14 +90,15 @@ TEndEpisode ==
     /\ stage = "run" /\ ep <= NEp /\ pos = Len(E.steps) + 1
     /\ ep' = ep + 1 /\ pos' = 1 /\ nAcc' = nAcc + 1
     /\ trng' = [seed |-> "s0", stream |-> <<>>, calls |-> 0]
-    /\ UNCHANGED <<nRej, nDrift, nMemo, stage>>
+    /\ UNCHANGED <<nRej, nDrift, nMemo, nMixed, stage>>
     /\ Frozen
 
 TDone == /\ stage = "run" /\ ep = NEp + 1
          /\ PrintT(<<"SUMMARY", ToJson([episodes |-> NEp, accepted |-> nAcc, rejected |-> nRej,
-                                         drift |-> nDrift, memo_checked |-> nMemo])>>)
+                                         drift |-> nDrift, memo_checked |-> nMemo,
+                                         memo_after_other_dtype |-> nMixed])>>)
          /\ stage' = "end"
-         /\ UNCHANGED <<ep, pos, trng, nAcc, nRej, nDrift, nMemo>>
+         /\ UNCHANGED <<ep, pos, trng, nAcc, nRej, nDrift, nMemo, nMixed>>
          /\ Frozen
 
 TNext == TStep \/ TEndEpisode \/ TDone
